@@ -176,6 +176,9 @@ impl Monitor for C04 {
         if !s.out.is_ok() {
             return;
         }
+        if s.pre.pm_fc != w.fc.as_str() && matches!(s.op, Op::Pm { msg: pm::ExecuteMsg::Swap { .. } | pm::ExecuteMsg::ExecuteSwapOperations { .. }, .. }) {
+            rep.count("bank_slice", "trades_while_the_fee_collector_is_a_plain_account");
+        }
         let (sender, msg, funds) = match s.op {
             Op::Pm { sender, msg, funds } => (sender, msg, funds),
             _ => return,
@@ -257,7 +260,7 @@ impl Monitor for C04 {
                     expected.push(("burn".into(), w.pm.to_string(), String::new(), h.ask_denom.clone(), h.burn_fee));
                 }
                 if h.protocol_fee > 0 {
-                    expected.push(("send".into(), w.pm.to_string(), w.fc.to_string(), h.ask_denom.clone(), h.protocol_fee));
+                    expected.push(("send".into(), w.pm.to_string(), s.pre.pm_fc.clone(), h.ask_denom.clone(), h.protocol_fee));
                 }
             }
             pm::ExecuteMsg::ExecuteSwapOperations { receiver, operations, .. } => {
@@ -304,7 +307,7 @@ impl Monitor for C04 {
                         expected.push(("burn".into(), w.pm.to_string(), String::new(), h.ask_denom.clone(), h.burn_fee));
                     }
                     if h.protocol_fee > 0 {
-                        expected.push(("send".into(), w.pm.to_string(), w.fc.to_string(), h.ask_denom.clone(), h.protocol_fee));
+                        expected.push(("send".into(), w.pm.to_string(), s.pre.pm_fc.clone(), h.ask_denom.clone(), h.protocol_fee));
                     }
                 }
             }
